@@ -39,6 +39,9 @@ def fixed_examples():
         ("single7", eg.single_plaquette(7)), ("star", eg.star_lattice_sheared()[0]),
     ]
     out += [("pinched_open", pinched_open()), ("two_site_torus", two_site_torus())]
+    for n in (3, 5):
+        a, b = mirror_rows(n)
+        out += [(f"row{n}-top", a), (f"row{n}-bottom", b)]
     for n in (1, 2, 3):
         out.append((f"honey{n}", eg.honeycomb_lattice(n)))
     for n in (1, 2):
@@ -63,6 +66,27 @@ def two_site_torus():
     e = np.array([[0, 1], [0, 1], [0, 1], [0, 1]])
     c = np.array([[0, 0], [-1, 0], [0, -1], [-1, -1]])
     return Lattice(v, e, c)
+
+
+def mirror_rows(n):
+    """one row of n vertices on the torus, neighbours joined by a horizontal edge and by a diagonal leaving through the top (first lattice) or the bottom
+    (second lattice): identical positions and edge indices, different crossings, each a proper embedding with n parallelogram faces.  Built one after the
+    other they expose state keyed on positions/indices only."""
+    pos = np.array([[(i + 0.5) / n, 0.5] for i in range(n)])
+    e = np.array([[i, (i + 1) % n] for i in range(n)] * 2)
+    wrap = np.array([1 if i == n - 1 else 0 for i in range(n)] * 2)
+    out = []
+    for sgn in (1, -1):
+        c = np.stack([wrap, np.array([0] * n + [sgn] * n)], axis=1)
+        out.append(Lattice(pos.copy(), e.copy(), c))
+    return out
+
+
+def cluster_voronoi(rng, spread=None):
+    """Voronoi lattice of a background point set plus a tight cluster: plaquettes with areas down to 1e-10"""
+    spread = 10.0 ** rng.uniform(-5.5, -3.5) if spread is None else spread
+    pts = np.concatenate([rng.uniform(size=(int(rng.integers(10, 18)), 2)), rng.uniform(0.3, 0.7, size=2) + spread * rng.uniform(-1, 1, size=(int(rng.integers(4, 8)), 2))])
+    return vz.generate_lattice(pts, shift_vertices=bool(rng.integers(2)))
 
 
 def pinch(rng, l):
@@ -133,7 +157,7 @@ def random_cases(rng, n, max_seeds=40, families=None):
     """n random zoo lattices (name, family, lattice)"""
     out = []
     fams = families or ["vor", "vor-x", "vor-y", "vor-xy", "vor-sub", "vor-vdel", "vor-dual", "vor-trunc",
-                        "vor-iso", "vor-tile", "dyadic", "cut-sub", "trail", "vor-pinch"]
+                        "vor-iso", "vor-tile", "dyadic", "cut-sub", "trail", "vor-pinch", "vor-cluster"]
     t = 0
     while len(out) < n:
         fam = fams[t % len(fams)]
@@ -171,6 +195,8 @@ def random_cases(rng, n, max_seeds=40, families=None):
                 c = eg.tile_unit_cell(small.vertices.positions, small.edges.indices, small.edges.crossing, [nx, ny])
             elif fam == "vor-pinch":
                 c = pinch(rng, l if rng.integers(2) else cut_boundaries(l))
+            elif fam == "vor-cluster":
+                c = cluster_voronoi(rng)
             elif fam == "dyadic":
                 c = snap_dyadic(l)
             elif fam == "cut-sub":
